@@ -9,7 +9,7 @@ import logging
 from typing import Any
 
 import numpy as np
-from scipy.linalg import eig
+from scipy.linalg import schur
 from scipy.linalg import svd
 
 from bqskit.compiler.basepass import BasePass
@@ -238,9 +238,11 @@ class BlockZXZPass(BasePass):
         # U can be decomposed into U = (I otimes V )(D otimes D†)(I otimes W )
 
         # We can find V,D^2 by performing an eigen decomposition of
-        # U_1 @ U_2†
-        d2, V = eig(U_1 @ U_2.conj().T)
-        d = np.sqrt(d2)
+        # U_1 @ U_2†. The product is normal, so its complex Schur form is
+        # diagonal and, unlike the eigenvectors eig() returns, V stays
+        # unitary when eigenvalues repeat.
+        T, V = schur(U_1 @ U_2.conj().T, output='complex')
+        d = np.sqrt(np.diag(T))
         D = np.diag(d)
 
         # We can then multiply to solve for W
